@@ -3,15 +3,15 @@ C16 — "Every documented annotation form is accepted with its structure intact"
 
 Model: Model/Annot.lean (lexer, type grammar, statement parsers, printer), tied to the code by comparing
 the real ParserLine / TypeConvertStr with the model on grammar-derived lines and their corruptions.
-Proved here, for ALL types of the canonical fragment (names, `table`, `table<K, V>`, one array suffix,
-unions of those, nested to any depth) and ALL token contexts:
+Proved here, for ALL types of the canonical fragment (names, `table`, `table<K, V>`, any number of array
+suffixes, unions of those, nested to any depth) and ALL token contexts:
  * `roundtrip`: reading the tokens of the printed form gives back exactly the same type and leaves the
    following tokens untouched, with the fuel the model's `parseLine` provides being enough
    (`cost_le_tokens`);
  * `roundtrip_fails_*`: outside the fragment the property is false of the model (and of the code):
    a fun type prints as `function(…)`, which reads back as the name `function` (class K2); a quoted
-   constant loses its quotes (K3); a parenthesised union under `[]` loses the parentheses (K4);
-   `T[][]` is not read at all (K1).
+   constant loses its quotes (K3); a parenthesised union under `[]` loses the parentheses (K4).
+   (`T[][]` used to be cut after the first suffix — finding K1, repaired: `arrSuffix_arrs`, `nested_array_read`.)
 -/
 import LuaHelper.Model.Annot
 import LuaHelper.Gen.Shapes
@@ -38,9 +38,34 @@ def Stops (rest : List Tok) : Prop :=
 theorem arrSuffix_stop (t : Ty) (rest : List Tok) (h : rest.head? ≠ some .lbrack) :
     arrSuffix t rest = some (t, rest) := by
   cases rest with
-  | nil => rfl
+  | nil => simp [arrSuffix]
   | cons x r =>
-    cases x <;> first | rfl | (simp at h)
+    cases x <;> first | (simp [arrSuffix]; done) | (simp at h)
+
+/-- n array suffixes as tokens, and what they make of a type -/
+def arrs : Nat → List Tok
+  | 0 => []
+  | n + 1 => .lbrack :: .rbrack :: arrs n
+def arrN : Nat → Ty → Ty
+  | 0, t => t
+  | n + 1, t => arrN n (.array t)
+
+/-- every `[]` suffix is read (since the repair of finding K1), each wrapping what was read so far -/
+theorem arrSuffix_arrs (n : Nat) : ∀ (t : Ty) (rest : List Tok), rest.head? ≠ some .lbrack →
+    arrSuffix t (arrs n ++ rest) = some (arrN n t, rest) := by
+  induction n with
+  | zero => intro t rest h; simpa [arrs, arrN] using arrSuffix_stop t rest h
+  | succ n ih =>
+    intro t rest h
+    simp only [arrs, arrN, List.cons_append, arrSuffix]
+    exact ih (.array t) rest h
+#print axioms arrSuffix_arrs
+
+theorem arrs_head_ne_lt (n : Nat) (rest : List Tok) (h : rest.head? ≠ some .lt) :
+    (arrs n ++ rest).head? ≠ some .lt := by
+  cases n with
+  | zero => simpa [arrs] using h
+  | succ n => simp [arrs]
 
 theorem pBase_tableE (f : Nat) (rest : List Tok) (h : rest.head? ≠ some .lt) :
     pBase (f + 1) (.kw .table :: rest) = some (.tableE, rest) := by
@@ -88,53 +113,51 @@ theorem rtB : (b : Ty) → canonB b = true → (f : Nat) → costB b ≤ f → (
   | .func _ _ _ _, hc, _, _, _, _ => by simp [canonB] at hc
   | .const _ _, hc, _, _, _, _ => by simp [canonB] at hc
 termination_by b => sizeOf b
-theorem rtS : (s : Ty) → canonS s = true → (f : Nat) → costS s ≤ f → (rest : List Tok) →
-    rest.head? ≠ some .lt → rest.head? ≠ some .lbrack → pSingle f (toksS s ++ rest) = some (s, rest)
-  | .array b, hc, f, hf, rest, _, _ => by
+theorem rtS : (s : Ty) → canonS s = true → (f : Nat) → costS s ≤ f → (n : Nat) → (rest : List Tok) →
+    rest.head? ≠ some .lt → rest.head? ≠ some .lbrack →
+    pSingle f (toksS s ++ (arrs n ++ rest)) = some (arrN n s, rest)
+  | .array t, hc, f, hf, n, rest, hlt, hlb => by
     simp only [canonS] at hc
-    cases f with
-    | zero => simp [costS] at hf
-    | succ f =>
-      have hb : costB b ≤ f := by simp [costS] at hf; omega
-      have e := rtB b hc f hb (.lbrack :: .rbrack :: rest) (by simp)
-      have : toksS (.array b) ++ rest = toksB b ++ (.lbrack :: .rbrack :: rest) := by simp [toksS]
-      rw [this]
-      simp [pSingle, e, arrSuffix]
-  | .normal n, hc, f, hf, rest, hlt, hlb => by
-    cases f with
-    | zero => simp [costS] at hf
-    | succ f =>
-      have hb : 1 ≤ f := by simp [costS, costB] at hf; omega
-      obtain ⟨g, rfl⟩ : ∃ g, f = g + 1 := ⟨f - 1, by omega⟩
-      have e : pBase (g + 1) (toksB (.normal n) ++ rest) = some (.normal n, rest) := by
-        simpa [toksB] using pBase_normal g n rest
-      simp only [toksS, pSingle, e]
-      exact arrSuffix_stop _ rest hlb
-  | .tableE, hc, f, hf, rest, hlt, hlb => by
+    have e := rtS t hc f (by simpa [costS] using hf) (n + 1) rest hlt hlb
+    have : toksS (.array t) ++ (arrs n ++ rest) = toksS t ++ (arrs (n + 1) ++ rest) := by
+      simp [toksS, arrs]
+    rw [this, e]
+    rfl
+  | .normal nm, hc, f, hf, n, rest, hlt, hlb => by
     cases f with
     | zero => simp [costS] at hf
     | succ f =>
       have hb : 1 ≤ f := by simp [costS, costB] at hf; omega
       obtain ⟨g, rfl⟩ : ∃ g, f = g + 1 := ⟨f - 1, by omega⟩
-      have e : pBase (g + 1) (toksB .tableE ++ rest) = some (.tableE, rest) := by
-        simpa [toksB] using pBase_tableE g rest hlt
+      have e : pBase (g + 1) (toksB (.normal nm) ++ (arrs n ++ rest)) = some (.normal nm, arrs n ++ rest) := by
+        simpa [toksB] using pBase_normal g nm (arrs n ++ rest)
       simp only [toksS, pSingle, e]
-      exact arrSuffix_stop _ rest hlb
-  | .table k v, hc, f, hf, rest, hlt, hlb => by
+      exact arrSuffix_arrs n _ rest hlb
+  | .tableE, hc, f, hf, n, rest, hlt, hlb => by
+    cases f with
+    | zero => simp [costS] at hf
+    | succ f =>
+      have hb : 1 ≤ f := by simp [costS, costB] at hf; omega
+      obtain ⟨g, rfl⟩ : ∃ g, f = g + 1 := ⟨f - 1, by omega⟩
+      have e : pBase (g + 1) (toksB .tableE ++ (arrs n ++ rest)) = some (.tableE, arrs n ++ rest) := by
+        simpa [toksB] using pBase_tableE g (arrs n ++ rest) (arrs_head_ne_lt n rest hlt)
+      simp only [toksS, pSingle, e]
+      exact arrSuffix_arrs n _ rest hlb
+  | .table k v, hc, f, hf, n, rest, hlt, hlb => by
     cases f with
     | zero => simp [costS] at hf
     | succ f =>
       have hc' : canonM k = true ∧ canonM v = true := by simpa [canonS, canonB] using hc
       have hb : max (costM k) (costM v) + 2 ≤ f := by simp [costS, costB] at hf; omega
       obtain ⟨g, rfl⟩ : ∃ g, f = g + 1 := ⟨f - 1, by omega⟩
-      have e1 := rtM k hc'.1 g (by omega) (.comma :: (toksM v ++ (.gt :: rest))) (by simp [Stops])
-      have e2 := rtM v hc'.2 g (by omega) (.gt :: rest) (by simp [Stops])
-      have e := pBase_table g k v rest e1 e2
+      have e1 := rtM k hc'.1 g (by omega) (.comma :: (toksM v ++ (.gt :: (arrs n ++ rest)))) (by simp [Stops])
+      have e2 := rtM v hc'.2 g (by omega) (.gt :: (arrs n ++ rest)) (by simp [Stops])
+      have e := pBase_table g k v (arrs n ++ rest) e1 e2
       simp only [toksS, pSingle, e]
-      exact arrSuffix_stop _ rest hlb
-  | .multi _, hc, _, _, _, _, _ => by simp [canonS, canonB] at hc
-  | .func _ _ _ _, hc, _, _, _, _, _ => by simp [canonS, canonB] at hc
-  | .const _ _, hc, _, _, _, _, _ => by simp [canonS, canonB] at hc
+      exact arrSuffix_arrs n _ rest hlb
+  | .multi _, hc, _, _, _, _, _, _ => by simp [canonS, canonB] at hc
+  | .func _ _ _ _, hc, _, _, _, _, _, _ => by simp [canonS, canonB] at hc
+  | .const _ _, hc, _, _, _, _, _, _ => by simp [canonS, canonB] at hc
 termination_by s => sizeOf s
 /-- the union loop: first member `t`, remaining members `l` -/
 theorem rtL : (t : Ty) → (l : List Ty) → canonS t = true → canonL l = true → (f : Nat) →
@@ -145,7 +168,8 @@ theorem rtL : (t : Ty) → (l : List Ty) → canonS t = true → canonL l = true
     | zero => simp [costL] at hf
     | succ f =>
       have h1 : costS t ≤ f := by simp [costL] at hf; omega
-      have e := rtS t ht f h1 rest hs.2.2 hs.2.1
+      have e : pSingle f (toksS t ++ rest) = some (t, rest) := by
+        simpa [arrs, arrN] using rtS t ht f h1 0 rest hs.2.2 hs.2.1
       simp only [toksL, List.append_nil, pOneList, e]
       cases rest with
       | nil => rfl
@@ -158,7 +182,8 @@ theorem rtL : (t : Ty) → (l : List Ty) → canonS t = true → canonL l = true
     | succ f =>
       have h1 : costS t ≤ f := by simp [costL] at hf; omega
       have h2 : costL (t2 :: l2) ≤ f := by simp [costL] at hf ⊢; omega
-      have e := rtS t ht f h1 (.bor :: (toksS t2 ++ toksL l2 ++ rest)) (by simp) (by simp)
+      have e : pSingle f (toksS t ++ (.bor :: (toksS t2 ++ toksL l2 ++ rest))) = some (t, .bor :: (toksS t2 ++ toksL l2 ++ rest)) := by
+        simpa [arrs, arrN] using rtS t ht f h1 0 (.bor :: (toksS t2 ++ toksL l2 ++ rest)) (by simp) (by simp)
       have e2 := rtL t2 l2 hl.1 hl.2 f h2 rest hs
       have : toksS t ++ toksL (t2 :: l2) ++ rest = toksS t ++ (.bor :: (toksS t2 ++ toksL l2 ++ rest)) := by
         simp [toksL]
@@ -212,7 +237,7 @@ termination_by b => sizeOf b
 theorem costS_le : (s : Ty) → canonS s = true → costS s ≤ 2 * (toksS s).length + 1
   | .array b, hc => by
     simp only [canonS] at hc
-    have := costB_le b hc
+    have := costS_le b hc
     simp [costS, toksS]
     omega
   | .normal _, _ => by simp [costS, costB, toksS, toksB]
@@ -293,10 +318,21 @@ theorem roundtrip_fails_paren :
   decide +kernel
 #print axioms roundtrip_fails_paren
 
-/-- K1: only one `[]` suffix is read: in `string[][] @c` the second `[` ends the type and becomes the comment -/
-theorem nested_array_not_read :
-    (parseLine (strB "type string[][]")).map (fun st => match st with | .type _ _ [.multi [.array (.normal _)]] cm => cm | _ => []) =
-      some (strB "[]") := by decide +kernel
-#print axioms nested_array_not_read
+/-- the former finding K1, repaired: every `[]` suffix is read — `string[][]` is an array of arrays, printed as it was
+    written (the general statement is `roundtrip`, whose fragment now has arrays of any depth) -/
+theorem nested_array_read :
+    (parseLine (strB "type string[][] @grid")).map
+        (fun st => match st with | .type _ _ [.multi [.array (.array (.normal n))]] cm => (n, cm) | _ => ([], [])) =
+      some (strB "string", strB "grid") ∧
+    (parseLine (strB "type string[][]")).map (fun st => match st with | .type _ _ [t] _ => pr t | _ => []) =
+      some (strB "string[][]") := by decide +kernel
+#print axioms nested_array_read
+
+/-- premises of `roundtrip` satisfiable with nested arrays: `table<string, People[][]>[] | number` -/
+example :
+    let m : Ty := .multi [.array (.table (.multi [.normal [115]]) (.multi [.array (.array (.normal [80]))])), .normal [110]]
+    canonM m = true ∧ pOne (costM m) (toksM m ++ [.at]) = some (m, [.at]) := by
+  refine ⟨by simp [canonM, canonS, canonB, canonL], ?_⟩
+  exact roundtrip _ (by simp [canonM, canonS, canonB, canonL]) _ ⟨by simp, by simp, by simp⟩ _ (Nat.le_refl _)
 
 end LuaHelper.C16
